@@ -462,11 +462,76 @@ fn const_j<'tcx>(
             if let Some(sd) = c.check_static_ptr(tcx) {
                 v.push(("static", J::s(names::pretty(tcx, sd))));
             }
-            let s = names::no_trim(|| format!("{}", c.const_));
+            let mut s = names::no_trim(|| format!("{}", c.const_));
+            if let mir::Const::Unevaluated(uv, _) = c.const_ {
+                if let Some(pidx) = uv.promoted {
+                    // summarise the promoted body: the constants it is built from
+                    let bodies = tcx.promoted_mir(uv.def);
+                    if let Some(pb) = bodies.get(pidx) {
+                        let mut inner: Vec<String> = Vec::new();
+                        let mut vals: Vec<i128> = Vec::new();
+                        for bb in pb.basic_blocks.iter() {
+                            for st in &bb.statements {
+                                if let StatementKind::Assign(b) = &st.kind {
+                                    collect_consts(cx, tenv, &b.1, &mut inner, &mut vals);
+                                }
+                            }
+                        }
+                        v.push(("promoted", J::Num(pidx.as_usize() as i128)));
+                        if vals.len() == 1 && inner.len() == 1 {
+                            v.push(("val", J::Num(vals[0])));
+                        }
+                        s = format!("promoted{{{}}}", inner.join(", "));
+                    }
+                }
+            }
             v.push(("str", J::s(s)));
         }
     }
     J::obj(vec![("const", J::obj(v))])
+}
+
+fn collect_consts<'tcx>(
+    cx: &Cx<'tcx>,
+    tenv: ty::TypingEnv<'tcx>,
+    rv: &Rvalue<'tcx>,
+    out: &mut Vec<String>,
+    vals: &mut Vec<i128>,
+) {
+    let mut one = |op: &Operand<'tcx>| {
+        if let Operand::Constant(c) = op {
+            let cty = c.const_.ty();
+            if let ty::FnDef(d, _) = cty.kind() {
+                out.push(names::pretty(cx.tcx, *d));
+                return;
+            }
+            out.push(names::no_trim(|| format!("{}", c.const_)));
+            if cty.is_integral() || cty.is_bool() || cty.is_char() {
+                if let Some(si) = c.const_.try_eval_scalar_int(cx.tcx, tenv) {
+                    let size = si.size();
+                    let bits = si.to_bits(size);
+                    vals.push(if cty.is_signed() { size.sign_extend(bits) as i128 } else { bits as i128 });
+                }
+            }
+        }
+    };
+    match rv {
+        Rvalue::Use(op, ..) | Rvalue::Cast(_, op, _) | Rvalue::UnaryOp(_, op) | Rvalue::Repeat(op, _) => one(op),
+        Rvalue::BinaryOp(_, b) => {
+            one(&b.0);
+            one(&b.1);
+        }
+        Rvalue::Aggregate(kind, ops) => {
+            for o in ops.iter() {
+                one(o);
+            }
+            if let mir::AggregateKind::Adt(adid, vi, ..) = &**kind {
+                let def = cx.tcx.adt_def(*adid);
+                out.push(format!("{}::{}", names::pretty(cx.tcx, *adid), def.variant(*vi).name));
+            }
+        }
+        _ => {}
+    }
 }
 
 fn fn_ref_j<'tcx>(
